@@ -11,11 +11,11 @@ package http2
 // SETTINGS and debited when a DATA frame reaches the wire, where each frame is checked).
 //
 // Sensitivity (mut.sh, caught as VIOLATION and confirmed natively):
-//   transport.go awaitFlowControl: drop the `take > int32(cc.maxFrameSize)` clamp        -> VerifC09_awaitStep, VerifC09_bigBody
-//   transport.go awaitFlowControl: `a > 0`→`a >= 0`                                       -> VerifC09_awaitStep "taken > 0 / blocks"
-//   transport.go processWindowUpdate: drop the final `cc.cond.Broadcast()`               -> VerifC09_body (deadlock: writer never resumes)
-//   flow.go outflow.take: drop `f.conn.n -= n`                                           -> VerifC09_awaitStep, VerifC09_body (conn window exceeded)
-//   transport.go processSettingsNoWrite: `delta := int32(s.Val) - int32(cc.initialWindowSize)`→`int32(s.Val)` -> VerifC09_settingsStep
+//   transport.go awaitFlowControl: drop the `take > int32(cc.maxFrameSize)` clamp        -> VerifC09_awaitStep "taken <= SETTINGS_MAX_FRAME_SIZE"
+//   transport.go awaitFlowControl: `a > 0`→`a >= 0`                                       -> VerifC09_awaitStep, VerifC09_body, VerifC09_twoBodies (empty DATA frames)
+//   transport.go processWindowUpdate: drop the final `cc.cond.Broadcast()`               -> VerifC09_body, VerifC09_twoBodies (deadlock: writer never resumes)
+//   flow.go outflow.take: drop `f.conn.n -= n`                                           -> VerifC09_body, VerifC09_twoBodies (connection window exceeded on the wire)
+//   transport.go processSettingsNoWrite: `delta := int32(s.Val) - int32(cc.initialWindowSize)`→`int32(s.Val)` -> VerifC09_settingsStep, VerifC09_body
 
 import (
 	"bufio"
